@@ -131,9 +131,9 @@ func c17Structural(tag string, maxLen, A int) {
 func Verif_C17_structural_small() {
 	n := 12
 	if verifTier() >= 1 {
-		n = 16
+		n = 14
 	}
-	verifNote("C17(a): every UPDATE body of length <= 12 (quick) / 16 (thorough), callbacks return nil")
+	verifNote("C17(a): every UPDATE body of length <= 12 (quick) / 14 (thorough), callbacks return nil")
 	for _, w := range []string{"framing", "repeated-mp", "clean", "attr-overrun", "missing-mandatory"} {
 		verifWant("small-" + w)
 	}
